@@ -304,21 +304,28 @@ def parse_total_harness(sid: int | None, sub: int | None = None, not_sub: int | 
     def harness(I: Interp) -> None:
         from .c02 import registry_sids
         S = service_module()
-        pdu = I.fresh_bytes("pdu", inp=True, minlen=1)
-        b0 = pdu.t[0]
+        if byte4 is None:
+            pdu = I.fresh_bytes("pdu", inp=True, minlen=1)
+        else:
+            # byte 4 is a literal of the byte string, so every width derived from it is concrete
+            head = I.fresh_bytes("pdu_head", inp=True)
+            I.assume(models.seq_len(head.t) == 4)
+            tail = I.fresh_bytes("pdu_tail", inp=True)
+            pdu = VBytes(z3.Concat(head.t, z3.Unit(z3.IntVal(byte4)), tail.t))
+            I.inputs["pdu"] = pdu
+        b0 = pdu.t[0] if byte4 is None else head.t[0]
         I.assume(z3.And(b0 >= 0, b0 <= 255))
         if sid is not None:
             I.assume(b0 == sid)
         else:
             I.assume(z3.And(*[b0 != k for k in registry_sids()]))
         n = models.seq_len(pdu.t)
+        b1 = pdu.t[1] if byte4 is None else head.t[1]
         if sub is not None:
-            I.assume(z3.And(n >= 2, pdu.t[1] % 0x80 == sub, pdu.t[1] >= 0, pdu.t[1] <= 255))
+            I.assume(z3.And(n >= 2, b1 % 0x80 == sub, b1 >= 0, b1 <= 255))
         if not_sub is not None:
             I.assume(z3.Implies(n >= 2, z3.And(pdu.t[1] % 0x80 != not_sub, pdu.t[1] >= 0,
                                                pdu.t[1] <= 255)))
-        if byte4 is not None:
-            I.assume(z3.And(n >= 5, pdu.t[4] == byte4))
         if maxlen is not None:
             I.assume(n <= maxlen)
         try:
